@@ -220,6 +220,11 @@ class Evaluator:
             return transpose(self.ev(e.value))
         if isinstance(e, ast.Attribute) and core.src(e) in self.env:
             return self.env[core.src(e)]
+        if isinstance(e, ast.Subscript) and core.src(e.value) in ("np.c_", "np.column_stack") and isinstance(e.slice, ast.Tuple):
+            cols = [self.ev(x) for x in e.slice.elts]
+            if not all(len(shape(c)) == 1 and shape(c) == shape(cols[0]) for c in cols):
+                raise AnalysisError(f"{self.where}: np.c_ of shapes {[shape(c) for c in cols]}")
+            return [[c[i] for c in cols] for i in range(len(cols[0]))]
         if isinstance(e, ast.Subscript) and core.src(e) in self.env:
             return self.env[core.src(e)]  # a named source such as tags["scale"]
         if isinstance(e, ast.Subscript):
@@ -306,6 +311,20 @@ class Evaluator:
                 return self.ev(e.args[0])
             if f in ("np.abs", "abs", "np.absolute") and len(e.args) == 1:
                 return _map2(lambda x, _: sp.Abs(x), self.ev(e.args[0]), sp.Integer(0))
+            if f == "np.roll" and len(e.args) >= 2:
+                a = self.ev(e.args[0])
+                sh_ = e.args[1]
+                k_ = sh_.value if isinstance(sh_, ast.Constant) else (-sh_.operand.value if isinstance(sh_, ast.UnaryOp) and isinstance(sh_.op, ast.USub) and isinstance(sh_.operand, ast.Constant) else None)
+                ax_ = [k.value.value for k in e.keywords if k.arg == "axis" and isinstance(k.value, ast.Constant)]
+                if not isinstance(k_, int) or not isinstance(a, list) or (len(shape(a)) > 1 and ax_ != [0]):
+                    raise AnalysisError(f"{self.where}: '{core.norm(core.src(e), 50)}' (np.roll along the first axis by a literal shift is modelled)")
+                n_ = len(a)
+                return [a[(i - k_) % n_] for i in range(n_)]
+            if isinstance(e.func, ast.Attribute) and e.func.attr in ("all", "any") and not e.args and len(e.keywords) == 1 and e.keywords[0].arg == "axis" and isinstance(e.keywords[0].value, ast.Constant) and e.keywords[0].value.value in (1, -1):
+                v = self.ev(e.func.value)
+                if len(shape(v)) != 2:
+                    raise AnalysisError(f"{self.where}: .{e.func.attr}(axis=1) of shape {shape(v)}")
+                return [(sp.And(*row) if e.func.attr == "all" else sp.Or(*row)) for row in v]
             if isinstance(e.func, ast.Attribute) and e.func.attr in ("all", "any") and not e.args and not e.keywords:
                 v = self.ev(e.func.value)
                 flat = []
